@@ -812,9 +812,14 @@ func (b *Block) GetPointLabels(pts []dvid.Point3d) []uint64 {
 		singleValue = true
 		label = b.Labels[0]
 	}
+	outside := func(pt dvid.Point3d) bool {
+		return pt[0] < 0 || pt[0] >= b.Size[0] || pt[1] < 0 || pt[1] >= b.Size[1] || pt[2] < 0 || pt[2] >= b.Size[2]
+	}
 	if singleValue {
 		for i := 0; i < len(pts); i++ {
-			results[i] = label
+			if !outside(pts[i]) {
+				results[i] = label
+			}
 		}
 		return results
 	}
@@ -823,6 +828,10 @@ func (b *Block) GetPointLabels(pts []dvid.Point3d) []uint64 {
 	maxSubBlocks := int(gx * gy * gz)
 	subBlockPts := make(map[int][]ptIndex)
 	for i, pt := range pts {
+		if outside(pt) {
+			// a sub-block number computed from such a point can fall on another sub-block of the block
+			continue
+		}
 		sx := pt[0] >> subBlockShift
 		sy := pt[1] >> subBlockShift
 		sz := pt[2] >> subBlockShift
